@@ -45,7 +45,7 @@ func forwarderTable() []fwdExpect {
 			fwdExpect{"mux.(*Resource)." + v.name, "call<mux.(*Resource).Handle>(recv, param:h, param:m, " + list + ")", "=call"},
 		)
 	}
-	ms := "call<slices.Concat>(list(param:m, recv.ms))"
+	ms := "@LIST(param:m, recv.ms)"
 	t = append(t,
 		fwdExpect{"mux.(*Prefix).Handle", "call<mux.(*Router).Handle>(recv.router, concat(recv.pattern, param:pattern), param:h, " + ms + ", param:methods)", "recv"},
 		fwdExpect{"mux.(*Resource).Handle", "call<mux.(*Router).Handle>(recv.router, recv.pattern, param:h, " + ms + ", param:methods)", "recv"},
@@ -62,8 +62,28 @@ func forwarderTable() []fwdExpect {
 		fwdExpect{"mux.(*Prefix).Resource", "call<mux.(*Router).Resource>(recv.router, concat(recv.pattern, param:pattern), " + ms + ")", "=call"},
 		fwdExpect{"mux.(*Router).Prefix", "", "struct<Prefix>(router:recv, pattern:param:prefix, ms:call<slices.Clone>(param:m))"},
 		fwdExpect{"mux.(*Router).Resource", "", "struct<Resource>(router:recv, pattern:param:pattern, ms:call<slices.Clone>(param:m))"},
+		fwdExpect{"mux.(*Router).Handle", "call<tree.(*Tree).Add>(recv.tree, param:pattern, param:h, @LIST(param:m, recv.ms), param:methods)", "recv"},
 	)
 	return t
+}
+
+// callString renders a call term; arguments that are middleware lists are rendered by their flattened operands
+// (so slices.Concat, a hand-written concatenation helper and nested appends onto a fresh slice read the same).
+func callString(c *Ctx, call *ssa.Call) string {
+	t := c.O.Of(call)
+	if t.Op != "call" {
+		return t.String()
+	}
+	var parts []string
+	args := an.CallArgs(&call.Call)
+	for i, a := range t.Args {
+		if i < len(args) && isMiddlewareSlice(args[i].Type()) && a.Op != "param" && !(a.Op == "const") {
+			parts = append(parts, an.ListString(a))
+		} else {
+			parts = append(parts, a.String())
+		}
+	}
+	return "call<" + t.S + ">(" + strings.Join(parts, ", ") + ")"
 }
 
 // effectfulCalls: module calls of f other than trivial accessors that the originator inlines.
@@ -104,7 +124,7 @@ func ruleForwarders(c *Ctx, rule string) {
 				c.R.Add(rule, e.fn, "one-forwarded-call", c.P.Pos(f.Pos()), false, fmt.Sprintf("the facade method makes %d effectful module calls, expected exactly one", len(calls)))
 				continue
 			}
-			callTerm = c.O.Of(calls[0]).String()
+			callTerm = callString(c, calls[0])
 			good := callTerm == e.call
 			c.R.Add(rule, e.fn, "forwards", c.pos(calls[0]), good, ifelse(good, callTerm, "forwards "+callTerm+", the documented desugaring is "+e.call))
 		} else if len(calls) != 0 {
@@ -129,6 +149,9 @@ func ruleForwarders(c *Ctx, rule string) {
 			want := e.ret
 			if want == "=call" {
 				want = e.call
+				if len(calls) == 1 && r.Results[0] == ssa.Value(calls[0]) {
+					got = callTerm
+				}
 				if len(r.Results) > 1 {
 					// tuple of the call: extract<i>(call)
 					all := true
